@@ -75,8 +75,20 @@ def run(tier, seed, selftest=False, replay=None):
             c = tr[j["case"]]
             verdict.add(j["bad"], c, "clause %s at step %d of %s (saved at stage %s, ops %s)" % (
                 j["bad"], j["step"], c["id"], c["stage"], [s["op"] for s in c["steps"]]))
+    # the driver's own saving (hephaestus.save_program, --keep-all, stored test cases): every saved source / .bin pair of one driver iteration
+    # against the model of HPipeline, incl. steps that change the program but not its text; a differing file set is a C13 violation
+    pl = None
+    if not replay:
+        import c15
+        pl = c15.pipeline_table(subdir("c13pl"))
+        for sc, diff in pl.pop("mism"):
+            if "Files" in diff:
+                verdict.add("SavedBinIsProgram", {"id": "pipeline/" + json.dumps(sc, sort_keys=True), "scenario": sc, "diff": diff},
+                            "driver iteration %s: the saved sources / pickled programs differ from the model (a .bin next to a source must hold the program "
+                            "the source was printed from)" % json.dumps(sc, sort_keys=True))
     rc = verdict.finish()
     write_evidence(PID, tier, seed, "model_checking", {
+        "driver_saving": pl,
         "states": sum(g.distinct for g in gens) + sum(v.distinct for v in vals), "transitions": sum(g.generated for g in gens) + sum(v.generated for v in vals),
         "traces_validated_against_impl": ncases,
         "samples": [sample],
